@@ -19,7 +19,7 @@ prop, variant = sys.argv[1], sys.argv[2]
 wt = sys.argv[3] if len(sys.argv) > 3 else "%s/%s" % (os.environ.get("SEED_WT", "/tmp/wt"), prop)
 src = "%s/%s/%s" % (os.environ.get("SEED_SRC", "/tmp/wtout"), prop, variant)
 # second-round variants are filed as C and D
-label = {"A": "C", "B": "D"}[variant] if os.environ.get("SEED_ROUND") == "2" else {"A": "E", "B": "F"}[variant] if os.environ.get("SEED_ROUND") == "3" else variant
+label = {"A": "C", "B": "D"}[variant] if os.environ.get("SEED_ROUND") == "2" else {"A": "E", "B": "F"}[variant] if os.environ.get("SEED_ROUND") == "3" else {"A": "G", "B": "H"}[variant] if os.environ.get("SEED_ROUND") == "4" else variant
 meta_txt = open(os.path.join(src, "meta.txt")).read()
 
 
